@@ -1,5 +1,6 @@
 #pragma once
 
+#include <limits.h>
 #include <frg/macros.hpp>
 #include <frg/expected.hpp>
 #include <frg/formatting.hpp>
@@ -149,6 +150,12 @@ frg::expected<format_error> printf_format(A agent, const char *s, va_struct *vsp
 			++s;
 			FRG_ASSERT(*s);
 			opts.minimum_width = pop_arg<int>(vsp, &opts);
+			// A negative field width is taken as a '-' flag followed by a positive field width.
+			if(opts.minimum_width < 0) {
+				FRG_ASSERT(opts.minimum_width != INT_MIN);
+				opts.left_justify = true;
+				opts.minimum_width = -opts.minimum_width;
+			}
 		}else{
 			int w = 0;
 			while(*s >= '0' && *s <= '9') {
